@@ -40,3 +40,13 @@ package graph
 //@ ensures result != nil && fresh(result)
 //@ allocates gographviz.Graph
 //@ modifies xlen
+
+// C13 / C18 (-g): the picture is produced by one external run of graphviz `dot`. The diagram text is handed to it as the
+// command's Stdin READER (the os/exec package feeds it while the process runs) and the process is started before it is
+// waited for: SaveGraph itself never writes into a pipe of a process that does not exist yet, so it cannot block on the
+// size of the diagram. (That `dot` terminates is outside this verification.)
+//@ func SaveGraph
+//@ props C13 C18
+//@ effects_only
+//@ effect io_only os.Create, (*os.File).Close, (*gographviz.Graph).String, fmt.Println, exec.Command, strings.NewReader, (*exec.Cmd).Start, (*exec.Cmd).Wait
+//@ effect sequence os.Create, exec.Command, strings.NewReader, (*exec.Cmd).Start, (*exec.Cmd).Wait
